@@ -10,6 +10,7 @@ package c19
 import (
 	"context"
 	"encoding/json"
+	"errors"
 	"fmt"
 	"os"
 	"sort"
@@ -59,7 +60,8 @@ type Case struct {
 	Init      []int   `json:"init"`                     // per name: client index that owns it before the run, -1 none
 	Tasks     []TaskC `json:"tasks"`
 	Picks     []int   `json:"picks"`
-	FailAt    int     `json:"fail_at"` // always -1 in generated cases: store faults are outside this property's quantifier (replay only)
+	FailAt    int     `json:"fail_at"`               // -1 none; else the n-th SetNX of a name-index key returns a storage error
+	Lost      bool    `json:"lost_answer,omitempty"` // the faulted SetNX is applied but reports an error (else: not applied)
 }
 
 const baseDomain = "tunnox.net"
@@ -79,6 +81,7 @@ func targetPort(client int64) int    { return int(8000 + client%1000) }
 type fastCache struct {
 	*vkit.GateCache
 	lists, ids bool
+	lost       bool  // an injected fault on SetNX is "applied, answer lost"
 	ctr        int64 // ids: the counter hybrid.Incr reads (Get) and writes back (Set) is served atomically from here
 }
 
@@ -109,6 +112,14 @@ func (f *fastCache) Set(key string, v any, ttl time.Duration) error {
 	}
 	return f.GateCache.Set(key, v, ttl)
 }
+func (f *fastCache) SetNX(key string, v any, ttl time.Duration) (bool, error) {
+	ok, err := f.GateCache.SetNX(key, v, ttl)
+	if f.lost && errors.Is(err, vkit.ErrGateFault) {
+		f.GateCache.Storage.SetNX(key, v, ttl)
+	}
+	return ok, err
+}
+
 func (f *fastCache) Delete(key string) error {
 	if f.isFast(key) {
 		return f.GateCache.Storage.Delete(key)
@@ -473,10 +484,12 @@ func runCase(c Case, choose func(int, []string) int) result {
 	w.g.MaxSteps = 600
 	w.g.Stall = stall // repository code holds no lock across store operations
 	w.g.FailAt = c.FailAt
-	// injected faults: writes to index / record keys only (a failed tier READ is reported by
-	// hybrid as not-found — finding C14/tier-read-error-as-miss — and is outside this property)
-	w.g.FailFilter = func(s vkit.Step, write bool) bool {
-		return write && (strings.HasPrefix(s.Key, repos.KeyPrefixHTTPDomainIndex) || strings.HasPrefix(s.Key, repos.KeyPrefixHTTPDomainMapping))
+	// injected fault: the claim of a name (SetNX of an index key) returns a storage error,
+	// either not applied or applied-with-lost-answer. Other faults are not injected: hybrid
+	// reports failed reads as not-found and swallows failed cache writes (C14 findings).
+	w.main.lost = c.Lost
+	w.g.FailFilter = func(s vkit.Step, _ bool) bool {
+		return strings.HasSuffix(s.Op, ".SetNX") && strings.HasPrefix(s.Key, repos.KeyPrefixHTTPDomainIndex)
 	}
 	w.g.Activate()
 	for i := range c.Tasks {
@@ -517,7 +530,7 @@ func runCase(c Case, choose func(int, []string) int) result {
 	}
 	r.creates, r.deletes = w.m.creates, w.m.deletes
 	if w.m.symptom != "" {
-		r.key = "C19/" + rootCause(w.initIndex(), log, w.m.symptom) + "/" + w.m.symptom
+		r.key = "C19/" + rootCause(w.initIndex(), log, w.m.symptom, c.Lost) + "/" + w.m.symptom
 		if r.faulted {
 			r.key += "/under-single-store-fault"
 		}
@@ -637,7 +650,8 @@ func (w *world) finalChecks(faulted bool, r *result) {
 			state = fmt.Sprintf("%s@%d", got.ID, got.ClientID)
 		}
 		fin = append(fin, name+"="+state)
-		if len(live) == 1 && !faulted {
+		if len(live) == 1 {
+			// whatever failed for OTHER callers, an owned name keeps resolving to its owner
 			l := live[0]
 			if err != nil || got == nil {
 				more := ""
@@ -662,11 +676,17 @@ func (w *world) finalChecks(faulted bool, r *result) {
 				return
 			}
 		}
-		if faulted {
-			continue
-		}
 		// probe: a further client claims the name now
 		pm, perr := w.repo(i).CreateMapping(w.ctx, probeClient, subs[i], baseDomain, targetHost(probeClient), targetPort(probeClient))
+		if faulted {
+			// after a failed claim the name may legitimately stay blocked (a lost answer leaves an
+			// index entry without a record); only "an owned name cannot be claimed by others" is asserted
+			if len(live) == 1 && perr == nil {
+				m.fail("name-claimed-twice", fmt.Sprintf("%s: %s of client %d is live (never deleted by its owner) yet a further CreateMapping by client %d succeeded (%s): two mappings own one name", name, live[0].id, live[0].owner, probeClient, pm.ID))
+				return
+			}
+			continue
+		}
 		if perr == nil {
 			if old := m.recs[pm.ID]; old != nil {
 				m.fail("duplicate-mapping-id", fmt.Sprintf("CreateMapping(%s, client %d) returned id %s, already the id of %s owned by client %d", name, probeClient, pm.ID, old.name, old.owner))
@@ -697,7 +717,7 @@ func (w *world) finalChecks(faulted bool, r *result) {
 
 // rootCause derives the root-cause class of a failing schedule from its step log, so that
 // a different mechanism with the same symptom is not absorbed by a listed finding.
-func rootCause(initIdx map[string]string, log []vkit.Step, symptom string) string {
+func rootCause(initIdx map[string]string, log []vkit.Step, symptom string, lost bool) string {
 	if symptom == "duplicate-mapping-id" {
 		// hybrid.Incr = Get then Set: another task touched the counter between the two
 		open := map[string]int{}
@@ -735,12 +755,21 @@ func rootCause(initIdx map[string]string, log []vkit.Step, symptom string) strin
 		idx[repos.KeyPrefixHTTPDomainIndex+name] = id
 		claimAt[repos.KeyPrefixHTTPDomainIndex+name] = -1
 	}
+	claimBy := map[string]string{} // index key -> task whose SetNX put the current entry
 	for i, s := range log {
-		if s.Failed {
-			continue
-		}
 		isIdx := strings.HasPrefix(s.Key, repos.KeyPrefixHTTPDomainIndex)
 		isRec := strings.HasPrefix(s.Key, repos.KeyPrefixHTTPDomainMapping)
+		if s.Failed {
+			if isIdx && strings.HasSuffix(s.Op, ".SetNX") {
+				lastRec[s.Task] = "" // a create is running in this task (its claim failed)
+				if lost && idx[s.Key] == "" {
+					idx[s.Key] = "?" + s.Task
+					claimBy[s.Key] = s.Task
+					claimAt[s.Key] = i
+				}
+			}
+			continue
+		}
 		switch {
 		case isIdx && strings.HasSuffix(s.Op, ".SetNX"):
 			lastRec[s.Task] = ""
@@ -748,6 +777,7 @@ func rootCause(initIdx map[string]string, log []vkit.Step, symptom string) strin
 				idx[s.Key] = "?" + s.Task
 				pending[s.Task] = s.Key
 				claimAt[s.Key] = i
+				claimBy[s.Key] = s.Task
 			}
 		case isRec && strings.HasSuffix(s.Op, ".Set"):
 			if k, ok := pending[s.Task]; ok && idx[k] == "?"+s.Task {
@@ -761,6 +791,10 @@ func rootCause(initIdx map[string]string, log []vkit.Step, symptom string) strin
 			idxReadAt[s.Task+"|"+s.Key] = i
 		case isIdx && strings.HasSuffix(s.Op, ".Delete"):
 			cur, target := idx[s.Key], lastRec[s.Task]
+			if target == "" && cur != "" && claimBy[s.Key] != s.Task {
+				// a CreateMapping that did not obtain the claim removes the entry of whoever holds it
+				return "create-error-path-deletes-foreign-index"
+			}
 			if target != "" && cur != "" && cur != target {
 				r, read := idxReadAt[s.Task+"|"+s.Key]
 				switch {
@@ -834,7 +868,10 @@ func report(t vkit.TB, c Case, r result, class string) {
 		vkit.Class("feat:ownership-ops-of-two-tasks-parked-together")
 	}
 	if r.faulted {
-		vkit.Class("feat:single-store-fault")
+		vkit.Class("feat:name-claim-storage-error")
+		if c.Lost {
+			vkit.Class("feat:name-claim-applied-but-answer-lost")
+		}
 	}
 	if !c.AtomicIDs {
 		vkit.Class("feat:id-counter-scheduled")
@@ -897,6 +934,14 @@ func TestRandomSchedules(t *testing.T) {
 			c.Tasks = append(c.Tasks, task)
 		}
 		c.Picks = rapid.SliceOfN(rapid.IntRange(0, 3), 0, 40).Draw(t, "picks")
+		if rapid.IntRange(0, 3).Draw(t, "fault") == 0 {
+			c.FailAt = rapid.IntRange(0, 2).Draw(t, "failAt")
+			c.Lost = rapid.Bool().Draw(t, "lostAnswer")
+			// a failed claim that leaves an index entry behind, combined with the open id-counter
+			// finding (two creates minting one id), resolves that entry to the other create's
+			// record: keep the two root causes apart
+			c.AtomicIDs = true
+		}
 		p := &vkit.Picks{List: c.Picks}
 		report(t, c, runCase(c, p.Choose), fmt.Sprintf("random/%d-tasks", len(c.Tasks)))
 	})
@@ -912,6 +957,8 @@ type dfsProg struct {
 	gatedIDs bool
 	thorough bool
 	schedCap int
+	fault    int  // n > 0: the n-th index SetNX returns a storage error
+	lost     bool // ... after having been applied
 }
 
 func cr(name, client int) Op    { return Op{Do: "create", Name: name, Client: client} }
@@ -933,6 +980,13 @@ var dfsProgs = []dfsProg{
 	{name: "update(expired);cleanup||delete(owner);create(B)", init: []int{0, -1}, tasks: [][]Op{{upd("init0", "expired"), {Do: "cleanup"}}, {del("init0", 0), cr(0, 1)}}, thorough: true},
 	{name: "lookup;delete(found,as B)||delete(owner);create(B)", init: []int{0, -1}, tasks: [][]Op{{lk(0), del("found", 2)}, {del("init0", 0), cr(0, 2)}}},
 	{name: "lookup;delete(found,non-owner)||delete(owner);create(B)", init: []int{0, -1}, tasks: [][]Op{{lk(0), del("found", 1)}, {del("init0", 0), cr(0, 2)}}},
+	{name: "create(B) on owned name [claim fails]||lookup", init: []int{0, -1}, tasks: [][]Op{{cr(0, 1)}, {lk(0)}}, fault: 1},
+	{name: "create(B) on owned name [claim fails, answer lost]||lookup", init: []int{0, -1}, tasks: [][]Op{{cr(0, 1)}, {lk(0)}}, fault: 1, lost: true},
+	{name: "create(B) on owned name [claim fails]||create(C)", init: []int{0, -1}, tasks: [][]Op{{cr(0, 1)}, {cr(0, 2)}}, fault: 1},
+	{name: "create(B) on owned name [2nd claim fails]||create(C);lookup", init: []int{0, -1}, tasks: [][]Op{{cr(0, 1)}, {cr(0, 2), lk(0)}}, fault: 2, lost: true},
+	{name: "create(A) fresh [claim fails, answer lost]||create(B)", init: []int{-1, -1}, tasks: [][]Op{{cr(0, 0)}, {cr(0, 1)}}, fault: 1, lost: true},
+	{name: "create(A) fresh [claim fails]||create(B);delete(own)", init: []int{-1, -1}, tasks: [][]Op{{cr(0, 0)}, {cr(0, 1), del("own", 1)}}, fault: 1},
+	{name: "delete(owner);create(B) [claim fails]||create(C)", init: []int{0, -1}, tasks: [][]Op{{del("init0", 0), cr(0, 1)}, {cr(0, 2)}}, fault: 1},
 	{name: "delete(owner)||delete(owner)||create(B)", init: []int{0, -1}, tasks: [][]Op{{del("init0", 0)}, {del("init0", 0)}, {cr(0, 1)}}, thorough: true},
 }
 
@@ -956,7 +1010,7 @@ func TestExhaustive(t *testing.T) {
 				if prog.thorough && !fastLists {
 					continue // tree too large with list operations scheduled
 				}
-				c := Case{Shared: shared, FastLists: fastLists, AtomicIDs: !prog.gatedIDs, Init: prog.init, FailAt: -1}
+				c := Case{Shared: shared, FastLists: fastLists, AtomicIDs: !prog.gatedIDs, Init: prog.init, FailAt: prog.fault - 1, Lost: prog.lost}
 				for i, ops := range prog.tasks {
 					c.Tasks = append(c.Tasks, TaskC{Node: i % 2, Ops: ops})
 				}
